@@ -81,7 +81,7 @@ func c02hasTasks(shape string) bool { return shape != "se" }
 func c02cases(tier string) []c02case {
 	var cs []c02case
 	shapes1 := []string{"se", "ste", "fork"}
-	shapesN := []string{"se", "ste", "fork", "pjoin", "xmerge"}
+	shapesN := []string{"se", "ste", "fork", "forkshort", "pjoin", "xmerge"}
 	for n := 1; n <= 3; n++ {
 		shapes := shapesN
 		if n == 1 {
@@ -229,6 +229,20 @@ func c02graph(shape string, n int) *eng.Graph {
 			e := g.Add("endEvent", fmt.Sprintf("e%d", i), "")
 			g.Connect(starts[i], u, nil)
 			g.Connect(u, e, nil)
+		}
+	case "forkshort":
+		// a fork whose FIRST branch ends at once (straight to an end event) while the second waits at a task: the token
+		// that reached the fork is consumed before the forked sibling has done anything — the sibling is a token of the
+		// instance from the moment it is forked
+		for i := 0; i < n; i++ {
+			f := g.Add("parallelGateway", fmt.Sprintf("F%d", i), "")
+			es := g.Add("endEvent", fmt.Sprintf("es%d", i), "")
+			a := g.Add("task", fmt.Sprintf("A%d", i), "")
+			e := g.Add("endEvent", fmt.Sprintf("e%d", i), "")
+			g.Connect(starts[i], f, nil)
+			g.Connect(f, es, nil)
+			g.Connect(f, a, nil)
+			g.Connect(a, e, nil)
 		}
 	case "subfirst":
 		// the first start event leads into an embedded sub-process (whose content has a start event of its own), the
